@@ -493,9 +493,14 @@ func VerifC13TupleConcatSub() {
 	t := Tuple(append([]Object{}, items...))
 	sub, err := GetItem(t, NewSlice(None, Int(k), None))
 	verifAssert(err == nil, "no error")
-	r1, err := Add(sub, Tuple{Int(-1)})
+	// t + u, t += u (tuples are immutable: in-place concatenation makes a new tuple too), t * 1 + u
+	cat := Add
+	if verifChoice("inplace", 2) == 1 {
+		cat = IAdd
+	}
+	r1, err := cat(sub, Tuple{Int(-1)})
 	verifAssert(err == nil, "no error")
-	r2, err := Add(sub, Tuple{Int(-2), Int(-3)})
+	r2, err := cat(sub, Tuple{Int(-2), Int(-3)})
 	verifAssert(err == nil, "no error")
 	verifReach("called")
 	verifAssert(c13SameItems([]Object(t), items), "source tuple unchanged by concatenation onto its slice")
@@ -504,4 +509,33 @@ func VerifC13TupleConcatSub() {
 	verifAssert(ok1 && ok2, "results are tuples")
 	verifAssert(c13SameItems([]Object(g1), append(append([]Object{}, items[:k]...), Int(-1))), "first concatenation intact")
 	verifAssert(c13SameItems([]Object(g2), append(append([]Object{}, items[:k]...), Int(-2), Int(-3))), "second concatenation")
+}
+
+// bytes are immutable: b += x makes a new value; two values grown from the
+// same bytes object must not write into each other's storage.
+//
+//verif:property C13
+//verif:expect called
+func VerifC13BytesIAdd() {
+	n := verifChoice("n", verifBound(4, 8))
+	b0 := Bytes(verifString("b", n))
+	want0 := string(b0)
+	x, y, z := verifByte("x"), verifByte("y"), verifByte("z")
+	cat := IAdd
+	if verifChoice("inplace", 2) == 0 {
+		cat = Add
+	}
+	b1, err := cat(b0, Bytes{x})
+	verifAssert(err == nil, "no error")
+	c := b1 // a second name for the same value
+	b2, err := cat(b1, Bytes{y})
+	verifAssert(err == nil, "no error")
+	c2, err := cat(c, Bytes{z})
+	verifAssert(err == nil, "no error")
+	verifReach("called")
+	g0, g1, g2, g3 := string(b0), string(b1.(Bytes)), string(b2.(Bytes)), string(c2.(Bytes))
+	verifAssert(g0 == want0, "the first operand is unchanged")
+	verifAssert(g1 == want0+string([]byte{x}), "b += x is b + x")
+	verifAssert(g2 == want0+string([]byte{x, y}), "a value grown from b is not changed by growing another value from b")
+	verifAssert(g3 == want0+string([]byte{x, z}), "each in-place concatenation yields its own bytes")
 }
